@@ -116,6 +116,29 @@ def h_same_expect(E, order):
     return r['msg']
 
 
+def h_formula_messages(E, length):
+    """comparer-based graders (FormulaGrader): which message is shown depends on this call only - wrong_msg exactly when the best grade is 0 and no
+    specific message applies - whatever graders were called before (sequence of calls over three graders, symbolic samples)"""
+    from mitxgraders import FormulaGrader
+    from symx.stubs import make_sym_sampler
+    S = make_sym_sampler(E, 'x', 1, 2)
+    mk = lambda **kw: FormulaGrader(variables=['x'], sample_from={'x': S()}, samples=1, **kw)   # noqa
+    graders = {'A': mk(answers='x', wrong_msg='WRONG'), 'B': mk(answers='x'),
+               'C': mk(answers=({'expect': 'x', 'msg': 'right'}, {'expect': '2*x', 'grade_decimal': 0, 'msg': 'm'}, {'expect': '3*x', 'grade_decimal': 0.5, 'msg': 'half'}), wrong_msg='W')}
+    want = {('A', 'x'): (1, ''), ('A', 'x+10'): (0, 'WRONG'), ('B', 'x'): (1, ''), ('B', 'x+10'): (0, ''), ('C', 'x'): (1, 'right'), ('C', '2*x'): (0, 'm'),
+            ('C', '3*x'): (0.5, 'half'), ('C', 'x+10'): (0, 'W')}
+    keys = sorted(want)
+    out = []
+    for step in range(length):
+        gname, inp = E.choice('call%d' % step, keys)
+        r = graders[gname](None, inp)
+        grade, msg = want[(gname, inp)]
+        E.check('grade-is-maximum', near_eq(r['grade_decimal'], grade))
+        E.check('message-depends-on-this-call-only', r['msg'] == msg)
+        out.append(r['msg'])
+    return out
+
+
 def h_sub(E, ordered):
     """alternatives inside a list: each list item has two alternative answers"""
     from mitxgraders import SingleListGrader
@@ -148,6 +171,7 @@ def harnesses(tier):
         add(h_string, 'string', dict(inp=inp), 'StringGrader, 3 alternatives, credits in [0,1]')
     for order in range(6):
         add(h_same_expect, 'same_expect', dict(order=order), '3 alternatives sharing an expect value, credits in [0,1]')
+    add(h_formula_messages, 'formula_messages', dict(length=3), 'all sequences of 3 calls over 8 (grader, input) pairs', validate=False)
     for o in (True, False):
         add(h_sub, 'sublist', dict(ordered=o), 'SingleListGrader items with 2 alternatives each')
     if tier == 'thorough':
